@@ -92,6 +92,7 @@ class FnInfo:
         self.loops = 0
         self.calls = set()        # cnames of user functions called
         self.src = None
+        self.abstract = False
         self.done = False
         self.in_progress = False
         self.trivial_getter = None  # field name if body is 'return this->field'
@@ -151,7 +152,7 @@ class Unit:
                 if not name:
                     return
                 qual = '::'.join(ns + ((cls.key(),) if cls else ()) + (name,))
-                args = tmpl_args(n) if k == 'ClassTemplateSpecializationDecl' else []
+                args = self.norm_args(tmpl_args(n)) if k == 'ClassTemplateSpecializationDecl' else []
                 ty = Ty('::'.join(ns + (name,)) if not cls else cls.key() + '::' + name, args)
                 if not dep and n.get('completeDefinition'):
                     self.records[ty.key()] = n
@@ -255,6 +256,9 @@ class Unit:
                         '&&': int(bool(a) and bool(b)), '||': int(bool(a) or bool(b))}[op]
             except KeyError:
                 return None
+        if k == 'UnaryOperator' and n.get('opcode') in ('-', '+') and ks:
+            v = self.const_eval(ks[0], cls)
+            return None if v is None else (-v if n['opcode'] == '-' else v)
         if k == 'ConditionalOperator':
             c = self.const_eval(ks[0], cls)
             if c is None:
@@ -356,6 +360,7 @@ class Unit:
             args.append(self.canon(a, cls) if isinstance(a, Ty) else a)
         if name in ('std::__shared_ptr_access', 'std::__shared_ptr'):
             return Ty('std::shared_ptr', args[:1], t.const, t.ref, t.ptr)
+        args = self.norm_args(args)
         # unqualified library names
         short = name.split('::')[-1]
         if '::' not in name or name.startswith('bspline::') or name.startswith('support::') \
@@ -367,6 +372,21 @@ class Unit:
                     name = kt
                     break
         return Ty(name, args, t.const, t.ref, t.ptr)
+
+    @staticmethod
+    def norm_args(args):
+        """enable_if guards (a trailing bool 'true', printed as true or as the 1-bit value -1) are dropped; the
+        AdditionOperation enumerators become their values"""
+        out = []
+        for a in args:
+            if isinstance(a, Ty) and a.name.split('::')[-1] == 'ADDITION':
+                a = 0
+            elif isinstance(a, Ty) and a.name.split('::')[-1] == 'SUBTRACTION':
+                a = 1
+            out.append(a)
+        while out and ((isinstance(out[-1], Ty) and out[-1].name == 'true') or (isinstance(out[-1], int) and out[-1] == -1)):
+            out.pop()
+        return out
 
     def ty_of(self, n, cls=None):
         s = qt(n)
@@ -500,6 +520,10 @@ class Unit:
                 if dep:
                     continue
                 if not any(c.get('kind') == 'CompoundStmt' for c in d.get('inner', [])):
+                    # declared-only members of the driver's abstract operator classes: abstract callees
+                    if 'bspline_verif_abs' in ns and d.get('name') == 'transform' and pk == 'FunctionTemplateDecl':
+                        d['_abstract'] = True
+                        out.append(d)
                     continue
                 out.append(d)
         return out
@@ -941,7 +965,7 @@ class FnTr:
         if c1.lines:
             raise ExtractionError('%s: loop condition needs hoisting' % self.fi.cname)
         with Cap(self) as c2:
-            ie = self.expr(inc, discard=True) if inc.get('kind') else ''
+            ie = self.expr(inc) if inc.get('kind') else ''
         if c2.lines:
             raise ExtractionError('%s: loop increment needs hoisting' % self.fi.cname)
         self.emit('for (; %s; %s)' % (ce, ie))
@@ -1836,6 +1860,10 @@ class StdMixin:
                 m1 = re.match(r'BS_LOCAL_IT\((.*), (.*)\)$', b)
                 if not m1 or m1.group(1) != v or m1.group(2) != v + '.n':
                     raise ExtractionError('vector::erase(first,last) supported only with last == end()')
+                m0 = re.match(r'BS_LOCAL_IT\((.*), (.*)\)$', a)
+                if not m0 or m0.group(1) != v:
+                    raise ExtractionError('vector::erase(first,last): first is not an iterator of the same vector')
+                a = m0.group(2)
                 self.emit('__CPROVER_assert(%s <= %s.n, "[C09] vector::erase range inside the vector");' % (a, v))
                 self.emit('%s.n = %s;' % (v, a))
                 self.note_write(v)
@@ -2054,6 +2082,18 @@ def _unit_get_info(self, fi):
     fi.in_progress = True
     tr = FnTrFull(self, fi, self.contracts.get(fi.cname))
     tr.setup()
+    if fi.decl.get('_abstract'):
+        fi.abstract = True
+        fi.mutated, fi.may_throw, fi.returns_self, fi.rkind, fi.trivial_getter = [], False, False, 'value', None
+        if fi.ret is None:
+            raise ExtractionError('%s: abstract function without a spelled return type' % fi.cname)
+        fi.body = None
+        fi.sig = tr.signature()
+        fi.rstruct = None
+        fi.in_progress = False
+        fi.done = True
+        self.order.append(fi)
+        return fi
     fi.mutated, fi.may_throw, fi.returns_self = [], False, False
     fi.rkind = 'value'
     fi.trivial_getter = self._trivial_getter(fi)
@@ -2274,7 +2314,7 @@ def emit_function(fi, clauses=None):
     for c in clauses or []:
         out.append('  ' + c)
     out.append('{')
-    out.extend(fi.body)
+    out.extend(fi.body or ['  /* abstract */'])
     out.append('}')
     return '\n'.join(out)
 
